@@ -56,11 +56,48 @@ type Engine struct {
 	timeoutMs     int
 	mapOrderRev   bool
 
+	crossEvery    int
+	assertQueries int
+	crossRuns     int
+	crossAnswered int
+	crossDisagree []string
+
 	harnessFiles map[string][]string // rel pkg dir -> harness file paths
 	methodCache  sync.Map
 }
 
 func (e *Engine) isTarget(p *ssa.Package) bool { return e.targets[p] }
+
+// maybeCrossCheck re-runs a sample of the assertion queries (path condition plus
+// negated assertion, as a standalone script) on cvc5 and on z3 5.1 and records
+// any disagreement with the primary solver's answer.
+func (e *Engine) maybeCrossCheck(p *Path, extra []*Term, r Res) {
+	if r == Unknown || e.crossEvery <= 0 || len(p.vars) > 400 {
+		return
+	}
+	e.mu.Lock()
+	e.assertQueries++
+	n := e.assertQueries
+	e.mu.Unlock()
+	if n != 1 && n%e.crossEvery != 0 {
+		return
+	}
+	as := append(append([]*Term{}, p.pc...), extra...)
+	script := StandaloneScript(p.tt(), as)
+	want := r.String()
+	for _, kind := range []string{"cvc5", "z3-new"} {
+		got, err := RunOneShot(kind, script, 60)
+		e.mu.Lock()
+		e.crossRuns++
+		if err == nil && (got == "sat" || got == "unsat") {
+			e.crossAnswered++
+			if got != want {
+				e.crossDisagree = append(e.crossDisagree, fmt.Sprintf("%s answered %s where z3 4.8.12 answered %s (harness %s)", kind, got, want, p.harness))
+			}
+		}
+		e.mu.Unlock()
+	}
+}
 
 var initAllowedExtra = map[string]bool{
 	"github.com/mitchellh/go-wordwrap": true,
@@ -169,7 +206,9 @@ func LoadEngine(prop, tier string, seed int64) *Engine {
 		coverSeen: map[string]bool{}, unknowns: map[string]int{}, solverErrs: map[string]int{},
 		maxGoroutines: 400, maxSteps: 4000000, maxDepth: 400, timeoutMs: 60000}
 	e.schedBudget = 2
+	e.crossEvery = 500
 	if tier == "thorough" {
+		e.crossEvery = 50
 		e.timeoutMs = 300000
 		e.schedBudget = 3
 	}
